@@ -54,8 +54,12 @@ impl AdditionalLifecycleEventsSet {
     spec fn w_unregistered(&self, t: RegistrationToken) -> bool;
     /// reregister / unregister returned Ok(false): the source is being dispatched, the request has to be deferred
     spec fn w_deferred(&self) -> bool;
+    /// process_events(readiness, token, ..) was called
+    spec fn w_processed(&self, readiness: Readiness, token: Token) -> bool;
 //@ endregion
-//@ item src/sources/mod.rs / trait EventDispatcher / fn process_events props=C14
+//@ item src/sources/mod.rs / trait EventDispatcher / fn process_events props=C14,C02 ret=r
+//@ spec
+        ensures self.w_processed(readiness, token),
 //@ enditem
 //@ item src/sources/mod.rs / trait EventDispatcher / fn register props=C14,C15 ret=r
 //@ spec
@@ -125,6 +129,7 @@ impl AdditionalLifecycleEventsSet {
     open spec fn w_unregister_called(&self, t: RegistrationToken) -> bool { true }
     open spec fn w_unregistered(&self, t: RegistrationToken) -> bool { true }
     open spec fn w_deferred(&self) -> bool { true }
+    open spec fn w_processed(&self, readiness: Readiness, token: Token) -> bool { true }
 //@ endregion
 //@ item src/sources/mod.rs / impl EventDispatcher<Data> for RefCell<DispatcherInner<S, F>> / fn process_events props=C14 sigonly
 //@ enditem
